@@ -56,6 +56,11 @@ func (et *ExecuteTimeout) Handler(ctx context.Context, name string, args []inter
 	defer cancel()
 	c := make(chan returnValue, 1)
 	go func() {
+		defer func() {
+			if e := recover(); e != nil {
+				c <- returnValue{nil, core.NewPanicError(e)}
+			}
+		}()
 		result, err := next(ctx, name, args)
 		c <- returnValue{result, err}
 	}()
